@@ -488,7 +488,7 @@ other-event samples of the history (`ConvSpec.oevs`: pid, tid, converted time): 
 stack on an entry of its own thread (created on demand), none is lost when the process exits or execs, none is
 duplicated, and no other record yields one. Together with `C14_marker_flush_meets_spec` (what each of these stacks
 is) this is the marker half of the judged statement; the attribution of the frames over histories is
-`C02_history` / `C14_history` for samples and is checked by the judge for markers (`ConvSpec.expectedMarkers`). -/
+`C02_history` / `C14_history` for samples and `C14_marker_history` for markers (`ConvSpec.expectedMarkers`). -/
 theorem C14_marker_conservation (cfg : Config) (rs : List Rec) (hr : cfg.reuse = false) :
     List.Perm
       ((views (run cfg rs)).flatMap (fun v => v.markers.map (fun o => (v.pidBase, v.tidBase, o.t))))
